@@ -58,6 +58,8 @@ def sym_logsumexp(a, axis=None, b=None, keepdims=False, return_sign=False):
     lifted = _np.empty(arr.shape, dtype=object)
     for idx in _np.ndindex(arr.shape):
         lifted[idx] = SL.lift(arr[idx])
+    if arr.ndim == 1:
+        ST.events.append(("logsumexp", list(arr)))
     if axis is None:
         axes = tuple(range(arr.ndim))
     elif isinstance(axis, (int, _np.integer)):
@@ -216,6 +218,20 @@ class NPProxy(types.ModuleType):
     def random(self):
         return RNG["obj"] if RNG["obj"] is not None else _np.random
 
+    @property
+    def linalg(self):
+        return _LINALG
+
+    def sqrt(self, a):
+        if isinstance(a, Sym):
+            return a.sqrt()
+        if isinstance(a, _np.ndarray) and a.dtype == object:
+            return _elementwise(lambda x: x.sqrt() if isinstance(x, Sym) else math.sqrt(x), a)
+        return _np.sqrt(a)
+
+    def append(self, arr, values, axis=None):
+        return _np.append(arr, values, axis=axis)
+
     def array(self, obj, *a, **kw):
         if isinstance(obj, (list, tuple)) and any(isinstance(x, Sym) for x in obj):
             out = _np.empty(len(obj), dtype=object)
@@ -259,8 +275,56 @@ class NPProxy(types.ModuleType):
         return _np.nextafter(a, b)
 
 
+class _LinalgProxy:
+    def __getattr__(self, name):
+        return getattr(_np.linalg, name)
+
+    def norm(self, x, ord=None, **kw):
+        if isinstance(x, _np.ndarray) and x.dtype == object:
+            if not has_sym(x):
+                return _np.linalg.norm(_np.array([float(v) for v in x.flat]).reshape(x.shape), ord, **kw)
+            flat = list(x.flat)
+            if ord == 1:
+                out = 0
+                for v in flat:
+                    out = out + abs(v)
+                return out
+            if ord in (None, 2):
+                out = 0
+                for v in flat:
+                    out = out + v * v
+                return out.sqrt() if isinstance(out, Sym) else math.sqrt(out)
+            raise core.SymError("norm ord=%r on symbolic values" % (ord,))
+        return _np.linalg.norm(x, ord, **kw)
+
+
+_LINALG = _LinalgProxy()
+class NPMechProxy(NPProxy):
+    """for mechanisms/*.py: as NPProxy but zeros/ones stay ordinary float arrays (they feed scipy.sparse constructors there), and
+    arrays built from symbolic scores are SymArrays (their .max() is an If-term, not a cascade of path forks)"""
+
+    def array(self, obj, *a, **kw):
+        out = NPProxy.array(self, obj, *a, **kw)
+        if isinstance(out, _np.ndarray) and out.dtype == object:
+            return out.view(core.SymArray)
+        return out
+
+    def append(self, arr, values, axis=None):
+        out = _np.append(arr, values, axis=axis)
+        if out.dtype == object:
+            return out.view(core.SymArray)
+        return out
+
+    def zeros(self, shape, dtype=None, **kw):
+        return _np.zeros(shape, **({"dtype": dtype} if dtype is not None else {}), **kw)
+
+    def ones(self, shape, dtype=None, **kw):
+        return _np.ones(shape, **({"dtype": dtype} if dtype is not None else {}), **kw)
+
+
 RNG = {"obj": None}     # event-recording stand-in for numpy.random inside repo modules (set by the mechanism checks)
 NP = NPProxy()
+NPM = NPMechProxy()
 
 
 class Recorder:
